@@ -52,4 +52,18 @@ instance : Field GaussRat where
   nnqsmul := _
   qsmul := _
 
+/-- complex conjugation as a ring homomorphism -/
+def conjHom : GaussRat →+* GaussRat where
+  toFun := GaussRat.conj
+  map_one' := by ext <;> simp [GaussRat.conj]
+  map_mul' a b := by
+    ext
+    · simp [GaussRat.conj]
+    · simp [GaussRat.conj]; ring
+  map_zero' := by ext <;> simp [GaussRat.conj]
+  map_add' a b := by
+    ext
+    · simp [GaussRat.conj]
+    · simp [GaussRat.conj]; ring
+
 end RenoVerif.GaussRat
